@@ -314,6 +314,7 @@ func genC03(w *core.Worker, u core.Unit, emit func(s string, meta string)) {
 	r := core.NewRng(w.R.Seed, "g03", fmt.Sprint(u.Lo))
 	g03InitWordCases()
 	g03InitValueCases()
+	g03InitCountCases()
 	for i := u.Lo; i < u.Hi; i++ {
 		m := g03Members[i%nm]
 		round := i / nm
@@ -322,7 +323,19 @@ func genC03(w *core.Worker, u core.Unit, emit func(s string, meta string)) {
 		nmask := uint64(len(g03FixedMasks))
 		exh1 := nm * nsep * nmask
 		exh2 := exh1 + uint64(len(g03WordCases))
-		if i >= exh2 && i < exh2+uint64(len(g03ValueCases)) {
+		exh3 := exh2 + uint64(len(g03ValueCases))
+		if i >= exh3 && i < exh3+uint64(len(g03CountCases)) {
+			// exhaustive part 4: one gap holds an exact number of comment tokens
+			// around the limits of 8- and 16-bit counters
+			cc := g03CountCases[i-exh3]
+			m = g03Members[cc.m]
+			s = g03BuildOpt(m, func(g int) string {
+				if g == cc.gap {
+					return strings.Repeat(g03CountSeps[cc.sep], cc.n)
+				}
+				return " "
+			}, g03FixedMasks[int(i)%len(g03FixedMasks)], g03NoOpt)
+		} else if i >= exh2 && i < exh3 {
 			// exhaustive part 3: every value text x every tail-blank for the quoted "x"/"admin" prefixes
 			vc := g03ValueCases[i-exh2]
 			m = g03Members[vc.m]
@@ -421,17 +434,50 @@ func g03InitValueCases() {
 	}
 }
 
+// g03CountCases: one separator is an exact number of separate comment tokens
+// (each counted by the scanner's statistics and dropped by the folder), the
+// number taken from the windows around 2^8 and 2^16: a statistic kept in a
+// narrower integer reads 0, 2 or 3 there and the whitelist exceptions that ask
+// for "exactly three tokens" or "no comment seen" apply to a long attack.
+var g03CountCases []struct{ m, gap, sep, n int }
+
+var g03CountSeps = []string{"/**/", "/*x*/ "}
+
+func g03InitCountCases() {
+	if g03CountCases != nil {
+		return
+	}
+	var counts []int
+	for _, c := range []int{256, 65536} {
+		for d := -6; d <= 4; d++ {
+			counts = append(counts, c+d)
+		}
+	}
+	k := 0
+	for mi, m := range g03Members {
+		// a spread of members: every prefix kind and family, both with and without a tail
+		if mi%211 != 0 && !(g03Prefixes[m.pre].text == "1" && g03Closers[m.closer] == "" && mi%17 == 0) {
+			continue
+		}
+		for j, n := range counts {
+			g03CountCases = append(g03CountCases, struct{ m, gap, sep, n int }{mi, (k + j) % 2, (k/2 + j/2) % len(g03CountSeps), n})
+		}
+		k++
+	}
+}
+
 func g03ExhaustiveCount() uint64 {
 	g03InitWordCases()
 	g03InitValueCases()
-	return uint64(len(g03Members))*uint64(len(g03Seps))*uint64(len(g03FixedMasks)) + uint64(len(g03WordCases)) + uint64(len(g03ValueCases))
+	g03InitCountCases()
+	return uint64(len(g03Members))*uint64(len(g03Seps))*uint64(len(g03FixedMasks)) + uint64(len(g03WordCases)) + uint64(len(g03ValueCases)) + uint64(len(g03CountCases))
 }
 
 // C03 — canonical SQL injection families are detected in every quoting context.
 func c03() *core.Check {
 	return &core.Check{
 		ID: "C03",
-		Rule: "members of the fixed attack grammar G_sqli (prefix x closers x separator x payload family x case mask x tail; productions dropped by the one-time calibration are listed in grammar/g03_dropped.txt): exhaustively with one separator per string and four fixed case masks, then every word of the payload re-cased on its own (all 2^k assignments for words up to 4 letters), then every quoted \"x\"/\"admin\" member with each of 24 realistic value texts before the quote (dates, names with blanks, values containing # -- /* or the other quote kind) and the blank of the trailing comment replaced by every other white-space byte, then sampled with an independent separator per gap, random masks, random value text, 3-65537 closing parentheses on a quarter of the \"))\" members, and one separator in eight repeated - or, for comment separators, one single long comment - up to a threshold length (29-65537 bytes). Oracle: IsSQLi = true. " +
+		Rule: "members of the fixed attack grammar G_sqli (prefix x closers x separator x payload family x case mask x tail; productions dropped by the one-time calibration are listed in grammar/g03_dropped.txt): exhaustively with one separator per string and four fixed case masks, then every word of the payload re-cased on its own (all 2^k assignments for words up to 4 letters), then every quoted \"x\"/\"admin\" member with each of 24 realistic value texts before the quote (dates, names with blanks, values containing # -- /* or the other quote kind) and the blank of the trailing comment replaced by every other white-space byte, then sampled with an independent separator per gap, random masks, random value text, 3-65537 closing parentheses on a quarter of the \"))\" members, and one separator in eight repeated - or, for comment separators, one single long comment - up to a threshold length (29-65537 bytes); a spread of members with one gap holding an exact number of separate comment tokens from the windows 250-260 and 65530-65540 (statistics kept in 8- or 16-bit integers wrap there). Oracle: IsSQLi = true. " +
 			"Non-trivial = every member; distinct by string.",
 		Plan: func(tier string, seed uint64) []core.Unit {
 			total := g03ExhaustiveCount()
